@@ -31,7 +31,7 @@ const char* const kFaultNames[FK_N] = {"alloc_fail", "open_errno", "read_eio", "
                                        "unseekable", "corrupt_content", "preemption"};
 const char* const kProbeNames[PR_N] = {
     "array_growth_path_taken", "insertion_at_exact_capacity", "builtin_refusal_at_512", "readfile_failure_after_first_crystal",
-    "oom_handled_failure_path", "oom_swallowed", "locale_write_in_non_C_numeric", "error_object_alive_10_ops",
+    "oom_handled_failure_path", "oom_swallowed", "fractional_subscript_parsed_in_decimal_comma_locale", "error_object_alive_10_ops",
     "preemption_at_visible_operation", "duplicate_add_rejected", "readfile_ok_multi_crystal", "copy_mutated_before_release",
     "readfile_ok_under_short_reads", "nested_formula_parsed", "cp_nist_fallback_taken", "error_propagated",
     "shared_crystal_used_by_2_tasks", "readfile_hit_eio", "readfile_truncated_rejected", "array_zero_capacity_used"};
@@ -589,7 +589,6 @@ char* xs_setlocale(int cat, const char* name) {
   bool changed = before != after;
   logf("SETLOCALE %d \"%s\" -> %s%s", cat, name, r ? r : "NULL", changed ? " changed" : "");
   virt_access(vl_of_cat(cat), changed, "setlocale", RA0);
-  if (changed && g_locale_cfg == LOC_XX) SH->probes[PR_LOCALE_WRITE_NONC]++;
   return r;
 }
 // POSIX per-thread locales: objects are tracked like allocations (a forgotten freelocale is a leak,
